@@ -1116,8 +1116,9 @@ class NamespaceManager(dict):
             self._prefix_renamed_map[prefix] = existing_ns
             return existing_ns
 
-        if prefix in self:
-            #  Conflicting prefix
+        if prefix in self or prefix == "default":
+            #  Conflicting prefix ("default" is taken as well: it is the key
+            #  of the default namespace in PROV-JSON's prefix block)
             new_prefix = self._get_unused_prefix(prefix)
             new_namespace = Namespace(new_prefix, namespace.uri)
             self._rename_map[namespace] = new_namespace
@@ -1259,7 +1260,7 @@ class NamespaceManager(dict):
         return Identifier("_:%s%d" % (local_prefix, self._anon_id_count))
 
     def _get_unused_prefix(self, original_prefix):
-        if original_prefix not in self:
+        if original_prefix not in self and original_prefix != "default":
             return original_prefix
         count = 1
         while True:
